@@ -331,6 +331,51 @@ pub fn run(ctx: &Ctx) -> i32 {
         }
     });
     ctx.put("high_address_slice_forms", json!(high.len()));
+    // last-word slice: every form as the very last instruction the flash of a part has room for (its last one or
+    // two words), on the smallest part that has the form and on a large one
+    {
+        let table = crate::refmodel::devices::table();
+        let mut n = 0u64;
+        for form in forms.iter() {
+            let mut devs: Vec<&(String, avra_lib::device::Device)> = table
+                .iter()
+                .filter(|(_, d)| crate::refmodel::devices::forbidding_flag(d, &form.name).is_none() && (form.core == Core::Reduced) == crate::refmodel::devices::is_reduced(d) || (form.core == Core::Any && crate::refmodel::devices::forbidding_flag(d, &form.name).is_none()))
+                .collect();
+            devs.sort_by_key(|(n, d)| (d.flash_size, n.clone()));
+            let picks: Vec<&(String, avra_lib::device::Device)> = match devs.len() {
+                0 => vec![],
+                1 => vec![devs[0]],
+                k => vec![devs[0], devs[k - 1]],
+            };
+            let mut r = Rng::for_case(ctx.seed, 0xC01_D, fw::hash_str(&form.name));
+            for (name, dev) in picks {
+                for vals in [form.tuple_at(0), form.tuple_at(form.space() - 1), form.tuple_at(r.below(form.space()))] {
+                    let mut vals = vals;
+                    for (i, o) in form.ops.iter().enumerate() {
+                        if let Opk::Rel { .. } = o {
+                            vals[i] = vals[i].clamp(-64, 63);
+                        }
+                    }
+                    let w = isa::encode(form, &vals);
+                    let at = dev.flash_size as usize - w.len();
+                    let text = line_text(form, &vals, &mut r);
+                    let src = format!(".device {}\n.org {}\n{}\n", name, at, text);
+                    let out = fw::build_str(&src);
+                    ctx.eval(1);
+                    n += 1;
+                    let ok = matches!(&out, Outcome::Ok(b) if b.code.len() == dev.flash_size as usize * 2 && b.code[at * 2..] == isa::words_to_bytes(&w)[..] && b.code[..at * 2].iter().all(|x| *x == 0));
+                    if !ok {
+                        ctx.violation(
+                            format!("enc/{}/last-words-of-flash", form.name),
+                            format!("`{}` in the last {} word(s) of {} ({} words): {}", text.trim(), w.len(), name, dev.flash_size, fw::clip(&format!("{:?}", out.kind()), 120)),
+                            json!({"source": src, "form": form.name, "vals": vals, "high_address": at, "device_line": true}),
+                        );
+                    }
+                }
+            }
+        }
+        ctx.put("last_word_slice_builds", json!(n));
+    }
     // operand-path slice: the same encodings when the operands arrive through a .def alias, an .equ
     // symbol, a forward label / .set variable, or as arguments of a macro (text spliced and re-parsed)
     let ctxwork: Vec<usize> = (0..forms.len()).collect();
@@ -507,7 +552,7 @@ pub fn run(ctx: &Ctx) -> i32 {
     crate::refmodel::llvm::crosscheck(ctx, ctx.tier == Tier::Thorough);
     fw::finish(
         ctx,
-        "every ISA-legal operand tuple of every supported instruction form is assembled (batches of 4096 lines, random radix/case/blank spelling; every fourth batch as a file with blank lines in front, LF or CRLF and no final line end) and compared byte-for-byte with the reference encoder and re-decoded by an independent decoder; plus a high-address slice (48 tuples per form behind .org 0x12345) an interleaving slice (3000 single-line builds on one thread alternating between the reduced core, no device and random forms) and an operand-path slice (8 tuples per form written through .def aliases, .equ/.set symbols and macro arguments, the macro arguments also as computed expressions with right-grouped operands, half of them behind a `.db` string whose byte count differs from its character count or that holds backslash sequences); `exhaustive` refers to the spaces listed under complete_spaces; distinct_nontrivial = distinct first instruction words emitted (bitmap over 65536)",
+        "every ISA-legal operand tuple of every supported instruction form is assembled (batches of 4096 lines, random radix/case/blank spelling; every fourth batch as a file with blank lines in front, LF or CRLF and no final line end) and compared byte-for-byte with the reference encoder and re-decoded by an independent decoder; plus a high-address slice (48 tuples per form behind .org 0x12345) an interleaving slice (3000 single-line builds on one thread alternating between the reduced core, no device and random forms) a last-word slice (every form in the last one or two words of the flash of the smallest and the largest part that has it) and an operand-path slice (8 tuples per form written through .def aliases, .equ/.set symbols and macro arguments, the macro arguments also as computed expressions with right-grouped operands, half of them behind a `.db` string whose byte count differs from its character count or that holds backslash sequences); `exhaustive` refers to the spaces listed under complete_spaces; distinct_nontrivial = distinct first instruction words emitted (bitmap over 65536)",
         &[
             "refmodel/isa.rs is a faithful transcription of the AVR Instruction Set Manual (self-checked decode∘encode, cross-checked against llvm-mc-14 where available)",
             "relative operands are written as pc±k at word address 4096; label-based targets belong to C03",
